@@ -6,7 +6,7 @@
 //! the writer a held `WritableZone` or `ZoneUpdater`).  After every step the
 //! observations the step asks for are made and classified one by one:
 //!   observed in `exp` (admissible per ZoneAbstract)        -> pass
-//!   observed in `dev` and every deviation in `blame` open  -> KNOWN
+//!   observed = a `dev` answer whose `blame` is all open    -> KNOWN
 //!   anything else                                          -> FAIL
 //! `--prop C08|C09` selects which observations are judged: C08 = fresh
 //! reader after Build / commit / drop, C09 = held readers (ReaderQuery,
@@ -56,15 +56,20 @@ enum Class {
     Fail,
 }
 
-fn classify(obs: &Value, exp: &Value, dev: &Value, blame: &Value, open: &[String]) -> Class {
+fn classify(obs: &Value, exp: &Value, dev: &Value, open: &[String]) -> Class {
     let o = norm(obs);
     if exp.as_array().map(|a| a.iter().any(|e| norm(e) == o)).unwrap_or(false) {
         return Class::Pass;
     }
-    if dev.as_array().map(|a| a.iter().any(|e| norm(e) == o)).unwrap_or(false) {
-        let b: Vec<String> = blame.as_array().map(|a| a.iter().filter_map(|x| x.as_str().map(String::from)).collect()).unwrap_or_default();
-        if !b.is_empty() && b.iter().all(|d| open.contains(d)) {
-            return Class::Known(b);
+    // dev = [{"ans": <answer of today's code>, "blame": [deviations that explain it]}, ..]
+    if let Some(entries) = dev.as_array() {
+        for e in entries {
+            if norm(&e["ans"]) == o {
+                let b: Vec<String> = e["blame"].as_array().map(|a| a.iter().filter_map(|x| x.as_str().map(String::from)).collect()).unwrap_or_default();
+                if !b.is_empty() && b.iter().all(|d| open.contains(d)) {
+                    return Class::Known(b);
+                }
+            }
         }
     }
     Class::Fail
@@ -134,7 +139,7 @@ fn main() {
                 continue;
             }
             let r = op["r"].as_str().unwrap_or("").to_string();
-            let mut items: Vec<(Value, Value, Value, Value, Value)> = vec![]; // (what, obs, exp, dev, blame)
+            let mut items: Vec<(Value, Value, Value, Value)> = vec![]; // (what, obs, exp, dev)
             if let Some(chks) = step["chk"].as_array() {
                 for c in chks {
                     let qt = c["qt"].as_str().unwrap_or("");
@@ -146,7 +151,7 @@ fn main() {
                         json!({"panic": panic_msg(e)})
                     });
                     items.push((json!({"q": [c["qn"], c["qt"]], "v": c["v"], "reader": if fresh { "fresh" } else { r.as_str() }}),
-                                obs, c["exp"].clone(), c["dev"].clone(), c["blame"].clone()));
+                                obs, c["exp"].clone(), c["dev"].clone()));
                 }
             }
             if step["walk"]["on"] == true {
@@ -158,15 +163,15 @@ fn main() {
                     });
                 // the walk expectation is ONE set of records
                 items.push((json!({"walk": true, "v": wk["v"], "reader": if fresh { "fresh" } else { r.as_str() }}),
-                            obs, json!([wk["exp"]]), wk["dev"].clone(), wk["blame"].clone()));
+                            obs, json!([wk["exp"]]), wk["dev"].clone()));
             }
-            for (what, obs, mut exp, dev, blame) in items {
+            for (what, obs, mut exp, dev) in items {
                 t.n_obs += 1;
                 if perturb && !perturbed {
                     perturbed = true;
                     exp = json!([{"perturbed": true}]);
                 }
-                match classify(&obs, &exp, if perturb { &Value::Null } else { &dev }, &blame, &open) {
+                match classify(&obs, &exp, if perturb { &Value::Null } else { &dev }, &open) {
                     Class::Pass => {
                         t.pass += 1;
                         if t.samples.len() < 3 && si > 4 {
@@ -187,7 +192,7 @@ fn main() {
                         beh_failed = true;
                         if t.fail_lines < 5 {
                             t.fail_lines += 1;
-                            let _ = writeln!(out, "FAIL {}", json!({"ops": ops_so_far, "obs_of": what, "exp": exp, "dev": dev, "blame": blame, "obs": obs}));
+                            let _ = writeln!(out, "FAIL {}", json!({"ops": ops_so_far, "obs_of": what, "exp": exp, "dev": dev, "obs": obs}));
                         }
                     }
                 }
